@@ -29,6 +29,8 @@ class ServicesManager:
         # so we need to introduce a lock to ensure the access to the dictionary is concurrent safe.
         self._access_dict_lock = asyncio.Lock()
         self._service_dict = {}
+        # connections that are waiting for their turn, per service, in the order in which they arrived
+        self._waiting_dict = {}
 
     async def create_service(self, sid: str, websocket: WebSocketServerProtocol):
         short_sid = shorten_sid(sid)  # shorten sid for display and log
@@ -38,12 +40,21 @@ class ServicesManager:
         service = Service(sid, websocket)
 
         has_sent_control_message = False
+        has_queued = False
         while True:
             # Check and register under the lock: when several connections wait for the same previous one,
             # only one of them may take its place, the others have to wait for that one in turn.
             async with self._access_dict_lock:
+                if not has_queued:
+                    self._waiting_dict.setdefault(sid, []).append(service)
+                    has_queued = True
                 prev_server = self._service_dict.get(sid)
-                if prev_server is None:
+                # Connections are served in the order in which they arrived: how quickly a waiting connection
+                # wakes up when the previous one closes must not let a later connection overtake it.
+                if prev_server is None and self._waiting_dict[sid][0] is service:
+                    self._waiting_dict[sid].pop(0)
+                    if not self._waiting_dict[sid]:
+                        del self._waiting_dict[sid]
                     if has_sent_control_message:
                         # the connections served while this one was waiting may have changed the stored service:
                         # do not work on (and later store) the state read when this connection was opened
@@ -61,7 +72,8 @@ class ServicesManager:
                 # to wait for the previous connection to close.
                 service.send_message(MsgType.CONTROL, reason.encode('utf8'))
                 has_sent_control_message = True
-            await prev_server.wait_closed()  # wait for the previous socket to close
+            if prev_server is not None:
+                await prev_server.wait_closed()  # wait for the previous socket to close
             await asyncio.sleep(0)  # always yield, so that the cleanup of the previous connection can run
         clean_task = asyncio.create_task(self.clean_service_when_close_connection(sid, websocket))
         await service.start()  # run forever! do not use asyncio.create_task
